@@ -3,6 +3,7 @@
 // element life-cycle ledger (C05).  Allocation failures and failing element
 // constructors are injected into the operation they are attached to.
 #include "worlds/common.hpp"
+#include "io.h"
 #include <functional>
 
 using namespace sim;
@@ -1025,6 +1026,33 @@ struct ArraysWorld : World {
 					reads(e, live, done, act <= 2 ? "after push" : act == 3 ? "after finish" : act == 4 ? "after take" : act == 5 ? "after move to front" : act == 6 ? "after making room" : "after its copy was pushed to");
 				}
 				{ Sut s; delete e; }
+				{
+					// the I/O face of the same thing (io::buffer): blocks written are the blocks read back, in order; a write that could not store a
+					// block (allocation failure) does not count it
+					io::buffer *b; { Sut s; b = new io::buffer(); }
+					std::deque<uint8_t> q;
+					for (int k = 0; k < 8; ++k) {
+						uint64_t z = ((uint64_t) op.c + 17) * 0x9e3779b97f4a7c15ull + (uint64_t) k * 0xbf58476d1ce4e5b9ull; z ^= z >> 28;
+						size_t es = 1 + (size_t) (z % 9), nb = 1 + (size_t) ((z >> 8) % 5);
+						if ((z >> 16) & 1) {
+							std::vector<uint32_t> w32 = fresh(es * nb); Block wb(es * nb, 0); for (size_t i = 0; i < es * nb; ++i) wb.p[i] = (uint8_t) w32[i];
+							ssize_t w; uint64_t f2; { Sut s(k == 3 ? failn : 0); w = b->write(nb, wb.p, es); f2 = g.fired; }
+							log.ev("X_IOBUF write %zu x %zu%s -> %zd", nb, es, f2 ? " allocfail" : "", w);
+							if (w < 0 || (size_t) w > nb) { if (!f2) fail("refused-valid", "io::buffer write of %zu blocks of %zu bytes reports %zd without allocation fault", nb, es, w); w = 0; }
+							if ((size_t) w < nb && !f2) fail("refused-valid", "io::buffer write of %zu blocks of %zu bytes took %zd without allocation fault", nb, es, w);
+							for (size_t i = 0; i < (size_t) w * es; ++i) q.push_back(wb.p[i]);
+							if (f2) fired = f2;
+						} else {
+							Block rb(es * nb, 0); memset(rb.p, 0xCC, es * nb);
+							ssize_t r; { Sut s; r = b->read(nb, rb.p, es); }
+							size_t can = std::min(nb, q.size() / es);
+							log.ev("X_IOBUF read %zu x %zu -> %zd (stored %zu)", nb, es, r, q.size());
+							if (r < 0 || (size_t) r != can) fail("wrong-content", "io::buffer read of %zu blocks of %zu bytes returns %zd with %zu bytes written and not yet read", nb, es, r, q.size());
+							for (size_t i = 0; i < can * es; ++i) { if (rb.p[i] != q.front()) fail("wrong-content", "io::buffer read byte %zu is %02x, written was %02x", i, rb.p[i], q.front()); q.pop_front(); }
+						}
+					}
+					{ Sut s; delete b; } st.hit("probe:io_buffer_write_read");
+				}
 				outcome = 1; break;
 			} else { if (op.c & 1) { { Sut s; *PA[h] = typed_array<uint32_t>(); } MP3[h].clear(); operated = h + 10; log.ev("X_RELEASE plain %d", h); } else { { Sut s; *A[h] = array(); } M3[h].clear(); log.ev("X_RELEASE %d", h); } outcome = 1; break; }
 			case OP_X_APPEND: if (!M3[h].empty() && (op.c % 11) == 3) {
